@@ -228,6 +228,16 @@ def edge_facts(fn, view_info, stack=(), interproc=True):
                 if ft != tt:
                     out.setdefault((b, tt), []).append((NEG[e.b.a], l, r))
                     out.setdefault((b, ft), []).append((e.b.a, l, r))
+        elif e.k == "discr" and e.a.k == "call" and e.a.a.path.startswith("core::num::<impl u") and e.a.a.path.endswith("::checked_sub") \
+                and len(e.a.a.args) == 2 and (0 in arms or 1 in arms):
+            # `a.checked_sub(b)`: Some exactly when a >= b
+            ax = call_arg_exprs(e.a.a)
+            l, r = term_of(fn, ax[0], view_info), term_of(fn, ax[1], view_info)
+            some_t = arms.get(1, t["otherwise"])
+            none_t = arms.get(0, t["otherwise"])
+            if l is not None and r is not None and some_t != none_t:
+                out.setdefault((b, some_t), []).append(("Ge", l, r))
+                out.setdefault((b, none_t), []).append(("Lt", l, r))
         elif e.k == "call" and len(e.a.args) == 2 and e.a.path in CMP_METHODS and 0 in arms:
             # `a < b` on a generic `T: PartialOrd` (a validation helper shared by several integer
             # types) is a trait method call on references
